@@ -7,10 +7,6 @@
 //@pin file=cfgrammar/src/lib/yacc/parser.rs fn=parse_action sha=e00c613ee10ea206
 //@pin file=cfgrammar/src/lib/yacc/parser.rs fn=parse_programs sha=bb9c484143dab195
 //@pin file=cfgrammar/src/lib/yacc/parser.rs fn=build sha=662f52b88f00489d
-//@pin file=cfgrammar/src/lib/yacc/parser.rs fn=add_duplicate_occurrence sha=6fccdba6cf4c19b3
-//@pin file=cfgrammar/src/lib/yacc/ast.rs fn=add_programs sha=fb76c16f98745b8d
-//@pin file=cfgrammar/src/lib/yacc/ast.rs fn=set_programs sha=a672bc6e20d019f4
-//@pin file=cfgrammar/src/lib/yacc/ast.rs fn=get_rule sha=3287f2f00d7e97fc
 //@pin file=cfgrammar/src/lib/yacc/ast.rs fn=unused_symbols sha=3d0d006d8a29898b
 //@pin file=cfgrammar/src/lib/yacc/grammar.rs fn=new_with_storaget sha=765ea3159713f061
 // RE_NAME (what counts as a name / a token in a grammar): a change is judged by the rendering sweep
